@@ -105,7 +105,7 @@ def check(rep, tier):
     try:
         progC = dict(start=10, end=-50, rate=1.0 / 60, holds=[], t_tot=4 * 3600.0, dt=1.0)
         SC = sr.make(dim="homogeneous", conf="shelf", height=0.01, diameter=0.01, K=20, prog=progC, cnTemp=-3.0)
-        recC = dict(label="homogeneous/shelf K=20 1 K/min cn=-3 (product lags behind the shelf)", dim="homogeneous", conf="shelf", S=SC, dt=0.1, prog=progC, cnTemp=-3.0, error=None)
+        recC = dict(label="homogeneous/shelf K=20 1 K/min cn=-3 (product lags behind the shelf)", dim="homogeneous", conf="shelf", S=SC, dt=0.1, prog=progC, cnTemp=-3.0, error=None, must_complete=True)
         sr.run(SC)
     except Exception as e:
         recC["error"] = e
@@ -120,7 +120,7 @@ def check(rep, tier):
         dt, _ = sr.step_info(S)
         if dim != "homogeneous":
             prog["t_tot"] = float(int(dt * 9800)); S = sr.make(dim=dim, conf="shelf", height=h, diameter=d, K=200, prog=prog, Nrep=5)
-        rec = dict(label="%s/shelf study Nrep=5 sequential (last repetition reported)" % dim, dim=dim, conf="shelf", S=S, dt=dt, prog=prog, error=None, row=-1, study=True)
+        rec = dict(label="%s/shelf study Nrep=5 sequential (last repetition reported)" % dim, dim=dim, conf="shelf", S=S, dt=dt, prog=prog, error=None, row=-1, study=True, must_complete=True)
         try:
             with impl.quiet():
                 S.run(how="sequential")
@@ -131,7 +131,11 @@ def check(rep, tier):
     for rec in recs:
         lab = rec["label"]
         if rec["error"] is not None:
-            rep.case(lab, nontrivial=False); rep.count("raised"); continue
+            rep.case(lab, nontrivial=False); rep.count("raised")
+            if rec.get("must_complete"):
+                # a fixed corpus configuration (independent of the seed) whose process is long enough: it completes on the pinned tree
+                rep.violation("corpus-run-raises", "%s: the run raises %r although the process is long enough for this vial" % (lab, rec["error"]), dict(run=lab, error=repr(rec["error"])))
+            continue
         st = stability(rec)
         rep.case(lab, nontrivial=True, sample=dict(run=lab, stability=st) if len(rep.samples) < 4 else None)
         rep.count(rec["dim"] + "/" + rec["conf"]); rep.count(("inside-stability" if st["inside"] else "outside-stability") + (" 2D" if rec["dim"] == "spatial_2D" else ""))
